@@ -16,9 +16,12 @@ RULE = ("seeded data sets (distinct x, more points than parameters; sigma_y none
         "spread x20; sigma_x none/common/per-point/per-point with some exact zeros/exactly one "
         "non-zero/common with one element set to 0 afterwards, for exponential, Gaussian and three "
         "user models; polynomial degrees 1-5; x-ranges whose bounds may coincide with data points; "
-        "30 % of the problems rescaled to other units, x and y independently by 1e-12..1e12; data "
+        "30 % of the problems rescaled to other units, x and y independently by 1e-12..1e12; OFFSET "
+        "abscissae |x|/span = 1e2..1e5 (position as a fit parameter up to 6e3, as a constant of the "
+        "user model up to 1e5) with x-uncertainties and noisy y; closed-form fits called with "
+        "parguess (list / tuple, with and without x-uncertainties); data "
         "passed as lists, arrays, MeasurementArrays, XYDataSet (keywords or arrays carrying the "
-        "uncertainties), XYDataSet.fit, keywords, enum model, y as DerivedValues) fitted by "
+        "uncertainties), XYDataSet.fit, keywords, enum model, y as DerivedValues, Plot.fit) fitted by "
         "the real library; the returned parameters/covariance are certified by the Lean driver "
         "against the proved optimality conditions; non-trivial = per-point weights unequal or "
         "sigma_x > 0; distinct by hash of the data set")
@@ -67,12 +70,63 @@ def gen_cases(ctx, n):
         cases.append(G.gen_case(ctx.rng, family=fam, sx=("point", "common", "zeros")[k % 3],
                                 noise_free=(k == 3), units=ext[k]))
         cases.append(G.gen_case(ctx.rng, family="polynomial", degree=k + 1, units=ext[-1 - k]))
+    cases += targeted(ctx)
     while len(cases) < n:
         u = None
         if ctx.rng.random() < 0.3:
             u = (ctx.rng.choice(G.SCALES), ctx.rng.choice(G.SCALES))
-        cases.append(G.gen_case(ctx.rng, units=u))
+        t = ctx.rng.random()
+        if t < 0.08:
+            cases.append(offset_case(ctx.rng, units=u))
+        else:
+            cases.append(G.gen_case(ctx.rng, units=u))
     return cases
+
+
+POSITION = ("gaussian", "custom:lpeak")     # models whose position is a fit parameter
+
+
+def offset_case(rng, family=None, ratio=None, units=None, **kw):
+    """OFFSET data (|x|/span = 1e2 ... 1e5) with x-uncertainties and noisy y.  Models whose position
+    is a PARAMETER stay below |x|/span = 3e3 (Gaussian 6e3): scipy's default forward-difference
+    Jacobian uses the step 1.5e-8*|p|, which for a position p = 1e5 widths away from 0 is no longer
+    small against the width -- scipy's own optimum/covariance then miss the certificate on the
+    unchanged code (measured: notes/C06.md); user models written in (x - x0) have parameters of order
+    one and go up to 1e5"""
+    family = family or rng.choice(G.OFFSET_FAMILIES)
+    if ratio is None:
+        top = {"gaussian": 6e3, "custom:lpeak": 3e3}.get(family, 1e5)
+        import math
+        ratio = 10 ** rng.uniform(2, math.log10(top))
+    return G.gen_offset(rng, family=family, ratio=ratio, units=units, **kw)
+
+
+def targeted(ctx):
+    """scenario classes generated deliberately in every run (counted in the evidence)"""
+    rng = ctx.rng
+    out = []
+    # (1) offset abscissae, every non-polynomial model, x-uncertainties, noisy y
+    for fam in G.OFFSET_FAMILIES:
+        pos = fam in POSITION
+        for ratio in ((3e2, 2e3, 5e3 if fam == "gaussian" else 3e3) if pos else (1e3, 1e4, 1e5)):
+            out.append(offset_case(rng, family=fam, ratio=ratio * rng.uniform(0.7, 1.0),
+                                   want_range=False))
+        out.append(offset_case(rng, family=fam, want_range=True))
+    for k, u in enumerate([(1e-6, 1.0), (1e3, 1e-3), (1e-12, 1e6)]):
+        out.append(offset_case(rng, family=G.OFFSET_FAMILIES[2 + k], ratio=3e4, units=u))
+        out.append(offset_case(rng, family=POSITION[k % 2], ratio=2e3, units=u))
+    # (2) polynomial-family fits called WITH parguess (list and tuple), with and without x-uncertainties
+    k = 0
+    for fam, d in (("linear", None), ("quadratic", None), ("polynomial", 1), ("polynomial", 2),
+                   ("polynomial", 3), ("polynomial", 4), ("polynomial", 5)):
+        for sx in ("none", "common" if k % 2 else "zeros"):
+            c = G.gen_case(rng, family=fam, degree=d, sx=sx, guess=True,
+                           sy=("none", "common", "point")[k % 3],
+                           form=G.FORMS[k % len(G.FORMS)])
+            c["guess_kind"] = ("list", "tuple")[(k // 2) % 2]
+            out.append(c)
+            k += 1
+    return out
 
 
 def correspond(ctx):
